@@ -525,7 +525,9 @@ fn run(ctx: &mut Ctx) {
             }
             // validity of the Go text first, classified by the identifier involved
             let rsrc = print_program(&renamed, PrintOpts::default());
+            let mut whole_ok = false;
             if let Ok(Ok(go)) = crate::runner::guard(|| crate::capi::compile_single(&rsrc).map(|c| crate::capi::go_text(&c))) {
+                whole_ok = true;
                 if let crate::goexec::Vet::Reject(errs) = crate::goexec::vet(&crate::goexec::parse(&go)) {
                     let user: Vec<String> = ren.types.values().chain(ren.variants.values()).chain(ren.fields.values()).chain(ren.methods.values()).chain(ren.fns.values()).chain(ren.locals.values()).cloned().collect();
                     report_vet_errors(c, &errs, &go, &user, &label, &rsrc, json!({"renaming": format!("{:?}", ren)}));
@@ -535,7 +537,7 @@ fn run(ctx: &mut Ctx) {
             // the same program through build + link (the linker restarts the name counters): the linked text must be
             // valid Go as well and print the same (added after a seeded change that gave two kinds of temporaries one
             // prefix, which collides only across the build / link boundary)
-            if j % 2 == 0 {
+            if j % 2 == 0 && whole_ok {
                 match crate::runner::guard(|| crate::capi::link_single(&rsrc)) {
                     Ok(Ok(lgo)) => {
                         c.count("linked_programs_vetted", 1);
@@ -556,7 +558,11 @@ fn run(ctx: &mut Ctx) {
                             _ => {}
                         }
                     }
-                    Ok(Err(_)) => c.count("linked_programs_rejected", 1),
+                    Ok(Err(e)) => {
+                        // the whole-program path accepted this program: acceptance parity is C14's business; kept for triage
+                        c.count("linked_programs_rejected_though_whole_accepts", 1);
+                        diff::stash("C19", &format!("link-rejects:{}", diff::msg_class(&e)), &label, &rsrc);
+                    }
                     Err(_) => c.count("linked_programs_crashed", 1),
                 }
             }
